@@ -2,31 +2,58 @@
 //! rendered error. The oracle is `nbv::props::c08::fuzz_bytes` (the one the proptest check uses);
 //! panics listed as known findings are tolerated so that the campaign does not rediscover one
 //! crash forever, anything else aborts and leaves the input as an artifact.
+//!
+//! The oracle runs on one long-lived worker thread with a large stack (deep but bounded nesting
+//! must not overflow) — long-lived because the harness caches the prelude session per thread.
 #![no_main]
 use libfuzzer_sys::fuzz_target;
-use std::sync::Once;
+use std::sync::mpsc::{Receiver, Sender, channel};
+use std::sync::{Mutex, OnceLock};
 
-static INIT: Once = Once::new();
+type Verdict = Result<(), (String, String)>;
+
+fn worker() -> &'static Mutex<(Sender<Vec<u8>>, Receiver<Verdict>)> {
+    static W: OnceLock<Mutex<(Sender<Vec<u8>>, Receiver<Verdict>)>> = OnceLock::new();
+    W.get_or_init(|| {
+        // libfuzzer-sys installs an aborting panic hook; the harness catches panics itself
+        nbv::engine::install_panic_hook();
+        let (tx_in, rx_in) = channel::<Vec<u8>>();
+        let (tx_out, rx_out) = channel::<Verdict>();
+        std::thread::Builder::new()
+            .stack_size(512 * 1024 * 1024)
+            .spawn(move || {
+                while let Ok(data) = rx_in.recv() {
+                    let v = match nbv::props::c08::fuzz_bytes(&data, &mut nbv::engine::Stats::default()) {
+                        Ok(()) => Ok(()),
+                        Err(f) => {
+                            if nbv::engine::known().matches("C08", &f.signature).is_some() {
+                                Ok(())
+                            } else {
+                                Err((f.signature, f.what))
+                            }
+                        }
+                    };
+                    if tx_out.send(v).is_err() {
+                        break;
+                    }
+                }
+            })
+            .expect("worker thread");
+        Mutex::new((tx_in, rx_out))
+    })
+}
 
 fuzz_target!(|data: &[u8]| {
-    // libfuzzer-sys installs an aborting panic hook; the harness needs to catch panics itself
-    INIT.call_once(nbv::engine::install_panic_hook);
-    let owned = data.to_vec();
-    let verdict = std::thread::Builder::new()
-        .stack_size(256 * 1024 * 1024)
-        .spawn(move || nbv::props::c08::fuzz_bytes(&owned, &mut nbv::engine::Stats::default()))
-        .unwrap()
-        .join();
-    match verdict {
+    let w = worker().lock().unwrap();
+    w.0.send(data.to_vec()).expect("worker alive");
+    match w.1.recv() {
         Ok(Ok(())) => {}
-        Ok(Err(f)) => {
-            if nbv::engine::known().matches("C08", &f.signature).is_none() {
-                eprintln!("NBV-FUZZ-FAILURE signature={} what={}", f.signature, f.what);
-                std::process::abort();
-            }
+        Ok(Err((signature, what))) => {
+            eprintln!("NBV-FUZZ-FAILURE signature={signature} what={what}");
+            std::process::abort();
         }
         Err(_) => {
-            eprintln!("NBV-FUZZ-FAILURE signature=harness what=oracle thread panicked");
+            eprintln!("NBV-FUZZ-FAILURE signature=harness what=oracle thread died");
             std::process::abort();
         }
     }
